@@ -517,12 +517,12 @@ impl Check for C19 {
                 judge_run(&cfg, steps, label.clone(), &mut out, &mut |t, out| {
                     out.count("legal_set_cells", 1);
                     if let Some(e) = &t.log.setup_error {
-                        out.violations.push(viol("C19", format!("C19/legal-set/{:?}/refused", ctx).to_lowercase(), format!("{}: configuration with the legal properties {:?} was refused: {}", label, want, e)));
+                        out.violations.push(viol("C19", format!("C19/legal-set/{}/refused", format!("{:?}", ctx).to_lowercase()), format!("{}: configuration with the legal properties {:?} was refused: {}", label, want, e)));
                         return;
                     }
                     let Some(op) = t.log.ops.iter().find(|o| o.step == req_at) else { return };
                     if !matches!(op.outcome, Outcome::Ok(_)) {
-                        out.violations.push(viol("C19", format!("C19/legal-set/{:?}/refused", ctx).to_lowercase(), format!("{}: request with the legal properties {:?} returned {:?}", label, want, op.outcome)));
+                        out.violations.push(viol("C19", format!("C19/legal-set/{}/refused", format!("{:?}", ctx).to_lowercase()), format!("{}: request with the legal properties {:?} returned {:?}", label, want, op.outcome)));
                         return;
                     }
                     let c = &t.w.conns[0];
@@ -542,7 +542,7 @@ impl Check for C19 {
                         _ => false,
                     });
                     if !found {
-                        out.violations.push(viol("C19", format!("C19/legal-set/{:?}/not-on-wire", ctx).to_lowercase(), format!("{}: accepted, but the properties {:?} were not decoded from the wire", label, want)));
+                        out.violations.push(viol("C19", format!("C19/legal-set/{}/not-on-wire", format!("{:?}", ctx).to_lowercase()), format!("{}: accepted, but the properties {:?} were not decoded from the wire", label, want)));
                     }
                 });
             }
